@@ -248,19 +248,35 @@ def _lang_root(f, v, depth=0):
 
 
 def _field_of(P, f, v, depth=0):
-    """name of the language-table field a flag argument was loaded from"""
-    lf = P.field_table(LANG_STRUCT)
-    while v['k'] == 'i' and depth < 8:
+    """name of the language-table member (plain or bit-field) a flag value was read from: the loaded bits that can influence v are traced back through masks and shifts"""
+    mem = P.members(LANG_STRUCT)
+    def back(v, need, d=0):
+        # need: mask of the bits of v that matter; returns (load inst, mask of loaded bits that matter) or None
+        if v['k'] != 'i' or d > 10: return None
         i = f.insts[v['id']]
-        if i.op == 'load':
-            base, off = addr_base(f, i.ops[0])
-            return lf.get(off, (None,))[0]
-        if i.op in ('zext', 'sext', 'trunc'): v = i.ops[0]
-        elif i.op == 'icmp' and const_of(i.ops[1]) == 0: v = i.ops[0]
-        elif i.op == 'and' and const_of(i.ops[1]) is not None: v = i.ops[0]
-        else: break
-        depth += 1
-    return None
+        if i.op == 'load': return (i, need & ((1 << (8 * (i.d.get('size') or 1))) - 1))
+        if i.op in ('zext', 'sext'): return back(i.ops[0], need & ((1 << (i.d.get('src_bits') or 8)) - 1), d + 1)
+        if i.op == 'trunc': return back(i.ops[0], need & ((1 << i.d['bits']) - 1), d + 1)
+        if i.op == 'icmp' and const_of(i.ops[1]) == 0: return back(i.ops[0], (1 << (i.d.get('op_bits') or 64)) - 1, d + 1)
+        if i.op == 'and' and const_of(i.ops[1]) is not None: return back(i.ops[0], need & const_of(i.ops[1]), d + 1)
+        if i.op == 'lshr' and const_of(i.ops[1]) is not None: return back(i.ops[0], need << const_of(i.ops[1]), d + 1)
+        if i.op == 'shl' and const_of(i.ops[1]) is not None: return back(i.ops[0], need >> const_of(i.ops[1]), d + 1)
+        if i.op == 'xor' and const_of(i.ops[1]) is not None: return back(i.ops[0], need, d + 1)
+        return None
+    r = back(v, (1 << 64) - 1)
+    if r is None: return None
+    ld, mask = r
+    base, off = addr_base(f, ld.ops[0])
+    if off is None or mask == 0: return None
+    hits = []
+    for nm, (ob, sb) in mem.items():
+        lo = ob - 8 * off
+        if sb >= 8:
+            if lo == 0 and sb == 8 * (ld.d.get('size') or 1): hits.append(nm)
+            elif lo == 0 and sb == 8 and mask & 0xff: hits.append(nm)
+        elif 0 <= lo < 64 and (mask >> lo) & ((1 << sb) - 1):
+            if mask == (((1 << sb) - 1) << lo): hits.append(nm)
+    return hits[0] if len(hits) == 1 else None
 
 
 def dispatch_map(ctx, cfg, P):
@@ -295,8 +311,8 @@ def dispatch_map(ctx, cfg, P):
                 st.mem.new('lang', 8, 0)
                 def hook(I_, st_, ptr, nbytes, inst, as_ptr, flags=flags):
                     c0 = ptr.parts[0] if ptr.parts else ptr.coff()
-                    for nm, (o_, sz_) in lf.items():
-                        if o_ == c0 and nm in flags: return BV.const(int(flags[nm]), 8 * nbytes)
+                    fb = P.flag_load(LANG_STRUCT, c0, nbytes, {n__: int(v__) for n__, v__ in flags.items()}) if c0 is not None else None
+                    if fb is not None: return BV(fb)
                     raise Unmodelled('get_comparer reads the language table at offset %s' % c0)
                 st.mem.hooks = {'lang': hook}
                 args = [Ptr('lang', 0) if p_['ty'].endswith('*') else BV.const(0, p_['bits'] or 32) for p_ in gc.params]
